@@ -30,6 +30,7 @@ type World struct {
 	srcCache map[string][]byte
 	implCache map[string][]*ssa.Function
 	PureIface func(c *ssa.CallCommon) bool // set from the contracts: interface methods declared pure
+	PureSig   func(c *ssa.CallCommon) bool // set from the contracts: function types whose `sig` family contract is pure
 	// package-level variables stored only by package initialisers
 	FrameKeys map[*ssa.Function]map[string]bool // per-key version of FrameAll (stores in the function itself only)
 	FrameAll map[*ssa.Function]bool // functions whose contract makes them prove (class framewrite) that they write only fresh memory
@@ -627,6 +628,9 @@ func (w *World) invokeWrites(c *ssa.CallCommon) map[string]bool {
 }
 
 func (w *World) funcValueWrites(c *ssa.CallCommon) map[string]bool {
+	if w.PureSig != nil && w.PureSig(c) {
+		return map[string]bool{} // the family contract of this function type says `pure` (an assumption on such values)
+	}
 	return map[string]bool{"*": true}
 }
 
